@@ -207,8 +207,20 @@ def dupEv (c : Dup.Cfg) (s : Dup.State) (e : Ev) : R (Dup.State × Bool) := do
 /-- goroutine id ↦ forwarder index -/
 abbrev Roles := List (Nat × Nat)
 
+/-- which goroutine plays which role.  chan-of-chan form: the dispatcher is the first goroutine the function starts
+(`join#0`), forwarders are `join#1`, and the dispatcher also waits and closes.  Slice form (since F103 the list is read
+before the function returns): the CALLER (`main`) runs the loop — `wait.Add`, `go` — forwarders are `join#0`, and a
+last goroutine `join#1` only waits and closes. -/
+structure Sites where
+  sp : String      -- who performs wait.Add / go
+  fwd : String     -- forwarders
+  waiter : String  -- who performs wait.Wait / close(out)
+
+def chanSites : Sites := { sp := "join#0", fwd := "join#1", waiter := "join#0" }
+def sliceSites : Sites := { sp := "main", fwd := "join#0", waiter := "join#1" }
+
 /-- Interprets an event of the join stage.  `mid` is the name of the outer channel. -/
-def joinEv (_c : JoinWG.Cfg) (mid : String) (posOf : Nat → Nat) (s : JoinWG.State) (roles : Roles) (e : Ev) :
+def joinEv (_c : JoinWG.Cfg) (st : Sites) (mid : String) (posOf : Nat → Nat) (s : JoinWG.State) (roles : Roles) (e : Ev) :
     R (Option (JoinWG.Label × Option Nat × Roles)) := do
   let some' (l : JoinWG.Label) (obs : Option Nat) : R (Option (JoinWG.Label × Option Nat × Roles)) :=
     pure (some (l, obs, roles))
@@ -218,27 +230,26 @@ def joinEv (_c : JoinWG.Cfg) (mid : String) (posOf : Nat → Nat) (s : JoinWG.St
     | none => throw s!"goroutine-{g}-is-not-a-forwarder"
   if e.ch == mid then
     match e.kind with
-    | "recv" => need (e.site == "join#0") "recv-outer"; some' .spNext (some e.val)
-    | "recvc" => need (e.site == "join#0") "recvc-outer"; some' .spNext none
+    | "recv" => need (e.site == st.sp) "recv-outer"; some' .spNext (some e.val)
+    | "recvc" => need (e.site == st.sp) "recvc-outer"; some' .spNext none
     | _ => pure none
   else if e.ch == "join.wait" then
     match e.kind with
-    | "add" => need (e.site == "join#0" && e.val == 1) "wg-add"; some' .spAdd none
-    | "done" => do let i ← fwd e.g; need (e.site == "join#1") "wg-done"; some' (.fDone i) none
-    | "wait" => need (e.site == "join#0") "wg-wait"; some' .spWait none
+    | "add" => need (e.site == st.sp && e.val == 1) "wg-add"; some' .spAdd none
+    | "done" => do let i ← fwd e.g; need (e.site == st.fwd) "wg-done"; some' (.fDone i) none
+    | "wait" => need (e.site == st.waiter) "wg-wait"; some' .spWait none
     | _ => pure none
   else if e.ch == "join.out" then
     match e.kind with
     | "make" => pure none
     | "xfer" => do
       let i ← fwd e.g
-      need (e.site == "join#1" && e.site2 == "cons0") "xfer-out"
+      need (e.site == st.fwd && e.site2 == "cons0") "xfer-out"
       some' (.cTake i) (some e.val)
     | "recvc" => need (e.site == "cons0") "recvc-out"; some' .cSeeClose none
-    | "close" => need (e.site == "join#0") "close-out"; some' .spClose none
+    | "close" => need (e.site == st.waiter) "close-out"; some' .spClose none
     | _ => throw s!"unexpected-on-out:{e.kind}"
-  else if e.kind == "go" && e.site2 == "join#1" then
-    need (e.site == "join#0") "go-forwarder"
+  else if e.kind == "go" && e.site2 == st.fwd && e.site == st.sp then
     pure (some (.spGo, none, (e.g2, s.k) :: roles))
   else
     match suffixNat "in" e.ch with
@@ -267,7 +278,8 @@ def joinwgEv (c : JoinWG.Cfg) (tagOf posOf capOfChan : Nat → Nat) (nchan : Nat
     need (eff.map tagOf == obs) s!"outer-channel-carries-another-channel:model={eff.map tagOf}:impl={obs}"
     let s' ← doStep m (JoinWG.effect c) s l eff
     pure ((s', roles'), true)
-  match ← joinEv c "outer" posOf s roles e with
+  let st := if c.chanForm then chanSites else sliceSites
+  match ← joinEv c st "outer" posOf s roles e with
   | some (.spNext, obs, roles') => outerStep .spNext obs roles'
   | some (l, obs, roles') =>
     let s' ← doStep m (JoinWG.effect c) s l obs
@@ -280,7 +292,11 @@ def joinwgEv (c : JoinWG.Cfg) (tagOf posOf capOfChan : Nat → Nat) (nchan : Nat
       match suffixNat "in" ch with
       | some j => need (j < nchan && e.val == capOfChan j) "make-in"; pure (sr, false)
       | none => throw s!"unknown-make:{ch}"
-    | "go", _ => envGo e ["prod", "oprod", "join#0", "cons0"]; pure (sr, false)
+    | "go", _ =>
+      if !c.chanForm && e.site2 == "join#1" then
+        -- slice form: the goroutine that waits and closes is started after the loop over the list
+        need (e.site == "main" && s.pc == .wait) "waiter-started-before-the-list-was-read"; pure (sr, false)
+      else envGo e ["prod", "oprod", "join#0", "cons0"]; pure (sr, false)
     | "send", "outer" => need (e.site == "oprod" && c.ocap > 0) "send-outer"; outerStep .oSend (some e.val) roles
     | "xfer", "outer" => need (e.site == "oprod" && e.site2 == "join#0" && c.ocap == 0) "xfer-outer"; outerStep .oSend (some e.val) roles
     | "close", "outer" => need (e.site == "oprod") "close-outer"; outerStep .oClose none roles
@@ -324,7 +340,7 @@ def pipelineEv (c : Pipeline.Cfg) (sr : Pipeline.State × Roles) (e : Ev) : R ((
   let st (l : Pipeline.Label) (obs : Option Nat) (roles' : Roles) : R ((Pipeline.State × Roles) × Bool) := do
     let s' ← doStep m (Pipeline.effect c) s l obs
     pure ((s', roles'), true)
-  match ← joinEv (Pipeline.jcfg c) "fmap.out" id s.j roles e with
+  match ← joinEv (Pipeline.jcfg c) chanSites "fmap.out" id s.j roles e with
   | some (l, obs, roles') => st (.j l) obs roles'
   | none =>
     match e.kind, e.ch with
